@@ -542,6 +542,38 @@ def r6_generic_measures(ctx):
                   'MessageBody for %s measures its contents through byte_len() of every MessageBody-bounded parameter (the sum over elements), never through the in-memory size' % f.self_ty,
                   f.where(), {'bounded_params': bounds, 'measured': sorted(measured), 'size_of_calls': len(sizeof)})
     ctx.floor('generic MessageBody impls', n, 20)
+    # (R12) the sum runs over the whole collection: a generic byte_len takes no partial view of `self` and truncates no iterator.
+    # (`VecDeque::as_slices().0` is the contiguous front segment only — equal to the whole deque until the ring buffer has wrapped.)
+    ctx.set_rule('C16.R12')
+    PARTIAL = ('first', 'last', 'get', 'front', 'back', 'take', 'skip', 'step_by', 'take_while', 'skip_while', 'filter', 'filter_map', 'range', 'peek',
+               'chunks', 'windows', 'nth', 'find', 'position', 'split_off', 'truncate', 'first_key_value', 'last_key_value', 'pop', 'pop_front', 'pop_back',
+               'get_unchecked', 'first_chunk', 'last_chunk', 'split_first_chunk', 'split_last_chunk', 'map_while', 'dedup', 'rsplit', 'splitn')
+    SPLIT = ('as_slices', 'as_mut_slices', 'split_at', 'split_first', 'split_last', 'split_at_checked', 'split_at_unchecked', 'partition', 'unzip')
+    m = 0
+    for f in P.fn_list:
+        if not (f.trait and strip_generics(f.trait) == MB and f.kind == 'assocfn' and f.name == 'byte_len'):
+            continue
+        if not [p for p, tr in f.j.get('impl_bounds', []) if strip_generics(tr) == MB]:
+            continue
+        m += 1
+        bad = []
+        measures = 0
+        for g in [f] + P.closures_of(f):
+            for s in g.calls():
+                last = (s.name or '').split('::')[-1]
+                std_recv = (s.name or '').startswith(('std::', 'core::', 'alloc::', '<std::', '<core::', '<alloc::'))
+                if s.callee == MB + '::byte_len' or (not std_recv and s.argtys and '[' in s.argtys[0]):
+                    measures += 1
+                if std_recv and last in PARTIAL and 'Option' not in (s.name or '') and 'Result' not in (s.name or ''):
+                    bad.append(s.name)
+        splits = [s.name for g in [f] + P.closures_of(f) for s in g.calls() if (s.name or '').split('::')[-1] in SPLIT]
+        if splits and measures < 2:
+            bad += splits
+        ctx.check(not bad, 'whole-collection:%s' % f.self_ty,
+                  'MessageBody for %s sums byte_len() over the whole collection: no partial view of self (front segment, prefix, first/last element) and no truncating iterator adaptor' % f.self_ty,
+                  f.where(), bad[:4])
+    ctx.floor('generic MessageBody impls (traversal)', m, 20)
+    ctx.set_rule('C16.R6')
 
 
 def r7_set_content_and_clone(ctx):
